@@ -91,7 +91,9 @@ static std::string half_unit_check(const std::string& txt, double d, int sig, in
   }
   long double err = fabsl(v - (long double) d);
   // exact ties are legitimate: allow for the rounding of v itself to the 64-bit mantissa of long double
-  if (err <= 0.5L * unit * (1 + 1e-9L) + fabsl(v) * 2e-19L) return "1";
+  // (values closer to a tie than 2^-57 of the value - the accuracy of stb_sprintf's digit generator - are classified
+  // exactly, as the recorded finding C12-stb-near-tie, by the checker on the model side: not here)
+  if (err <= 0.5L * unit + fabsl(v) * (2e-19L + 6.938893903907228e-18L)) return "1";
   char b[200];
   std::snprintf(b, 200, "err=%Lg unit=%Lg txt=%s", err, unit, txt.c_str());
   return b;
